@@ -27,7 +27,7 @@ Not decided: rendered layout (column widths, colours) and terminal behaviour."""
 import re
 
 from ..thir import Evaluator, Bits, Sym, Slice, Obj, Agg, Cond, ckey, vkey, Unsupported
-from ..mir import show_origin, origin_calls
+from ..mir import show_origin, origin_calls, Body, inline_fn
 from ..emit import format_sites, macro_source
 from .c20 import parse, lin, lin_str
 
@@ -309,7 +309,9 @@ def r191(ctx, rep, f, ev, cg, reach):
         if p not in f.fns:
             rep.missing("R19.1", p)
             continue
-        b = cg.body(p)
+        # the view with the helpers of its module inlined (the loop may live in a body shared by both views)
+        anchors = ("print_rdh_its_readout_frame_view", "mem_pos_calc_to_string", "generate_status_word_view", "print_start_of_its_readout_frame_header_text")
+        b = Body(inline_fn(f, p, lambda c: c.startswith(IRF) and "{closure" not in c and c.split("::")[-1] not in anchors, max_depth=3, max_blocks=1500))
         calls = [(bb, t, cal) for bb, t, cal, c in b.calls() if cal]
         names = [cal.split("::")[-1] for bb, t, cal in calls]
         ad = [n for n in names if n in ADAPT]
@@ -343,46 +345,38 @@ def r191(ctx, rep, f, ev, cg, reach):
 # ------------------------------------------------------------------ R19.2
 def r192(ctx, rep, f, ev, cg, reach):
     p = V + "lib::calc_current_word_mem_pos"
-    try:
-        v = ev.call_fn(p, [Sym("IDX"), Sym("DF"), Sym("POS")])
-        t = parse(vkey(v))
-    except Unsupported as e:
-        t = ("leaf", "unevaluable %s" % e)
-    # Add(Add(Mul(cast(IDX), Add(0xa, ite(Eq(DF,0),6,0))), POS), 0x40)  — accept any association of the sum
-    terms = []
+    # decided per concrete data_format value (all 256): offset = IDX × 16 + POS + 64 for format 0, IDX × 10 + POS + 64
+    # otherwise — a linear normal form, independent of how the padding / word size is spelled (if, match, constants)
+    bad = []
+    for df in range(256):
+        try:
+            v = ev.call_fn(p, [Sym("IDX"), Bits.const(df, 8), Sym("POS")])
+            t = parse(vkey(v))
+        except Unsupported as e:
+            bad.append((df, "unevaluable %s" % e))
+            break
+        terms = []
 
-    def flat(x):
-        if x[0] == "Add":
-            flat(x[1])
-            flat(x[2])
-        else:
-            terms.append(x)
-    flat(t)
-    consts = sum(x[1] for x in terms if x[0] == "const")
-    leaves = sorted(x[1] for x in terms if x[0] == "leaf")
-    muls = [x for x in terms if x[0] == "Mul"]
-    ok = consts == 64 and leaves == ["POS"] and len(muls) == 1
-    det = "const=%s leaves=%s" % (consts, leaves)
-    if ok:
-        a, b_ = muls[0][1], muls[0][2]
-        if b_[0] == "leaf":
-            a, b_ = b_, a
-        ok = a == ("leaf", "cast(sym(IDX) as u64)") or a == ("leaf", "IDX")
-        size = []
-
-        def flat2(x):
+        def flat(x):
             if x[0] == "Add":
-                flat2(x[1])
-                flat2(x[2])
+                flat(x[1])
+                flat(x[2])
             else:
-                size.append(x)
-        flat2(b_)
-        c = sum(x[1] for x in size if x[0] == "const")
-        ites = [x for x in size if x[0] == "ite"]
-        ok = ok and c == 10 and len(ites) == 1 and ites[0][1] == ("Eq", ("leaf", "DF"), ("const", 0)) and ites[0][2] == ("const", 6) and ites[0][3] == ("const", 0)
-        det += " word size: 10 + %s" % (ites,)
-    rep.check(ok, "R19.2", "R19.2|formula", "word offset = idx × (10 + (data_format == 0 ? 6 : 0)) + packet offset + 64", p,
-              "calc_current_word_mem_pos is %s (%s)" % (vkey(v)[:300] if 'v' in dir() else t, det))
+                terms.append(x)
+        flat(t)
+        consts = sum(x[1] for x in terms if x[0] == "const")
+        leaves = sorted(x[1] for x in terms if x[0] == "leaf")
+        muls = [x for x in terms if x[0] == "Mul"]
+        ok = consts == 64 and leaves == ["POS"] and len(muls) == 1
+        if ok:
+            a_, b_ = muls[0][1], muls[0][2]
+            if b_[0] == "leaf":
+                a_, b_ = b_, a_
+            ok = a_ in (("leaf", "cast(sym(IDX) as u64)"), ("leaf", "IDX")) and b_ == ("const", 16 if df == 0 else 10)
+        if not ok:
+            bad.append((df, vkey(v)[:200]))
+    rep.check(not bad, "R19.2", "R19.2|formula", "word offset = idx × (data_format == 0 ? 16 : 10) + packet offset + 64, for every data_format value", p,
+              "calc_current_word_mem_pos deviates for data_format %s" % bad[:3])
     mp = IRF + "mem_pos_calc_to_string"
     if mp in f.fns:
         b = cg.body(mp)
